@@ -31,7 +31,7 @@ OPS = {"add": operator.add, "sub": operator.sub, "mul": operator.mul, "div": ope
 OPSYM = {"add": "+", "sub": "-", "mul": "*", "div": "/", "pow": "**"}
 
 # mechanism the specification prescribes (repaired) and the mechanism of the pinned classes (design canary)
-MECH = dict(MInitUseCache=True, MClearByOperand=True, MPickleSlots=True, MEqFlat=False, MReuseEqual=False, MCacheKeyBuffer=False, MCacheKeyTime=True)
+MECH = dict(MInitUseCache=True, MClearByOperand=True, MPickleSlots=True, MEqFlat=False, MReuseEqual=False, MRampClamp=False, MCacheKeyBuffer=False, MCacheKeyTime=True)
 PINNED = dict(MECH, MInitUseCache=False, MClearByOperand=False, MPickleSlots=False)
 INVARIANTS = ["TypeOK", "EvalIsPointwise", "TimeDepIffSomeOperand", "EqIsStructural", "NestingTotal",
               "ClearCacheTotal", "PickleRoundTrip", "SolverAcceptsComposite"]
@@ -72,6 +72,25 @@ def make_pt(off):
 
 
 TWINS = {"P2b", "P3b", "PTb"}
+SHIPPED = {"RU", "RD", "CF", "CL"}
+LOOP = dict(current=40.0, radius=1.5, center=(0.3, -0.2, 0.4))      # CurrentLoop(uA, um); potential in mT um
+
+
+def loop_reference(points):
+    """Vector potential of the current loop at the points, by direct quadrature of the Biot-Savart line integral
+    A(r) = mu0 I / (4 pi) * closed integral dl' / |r - r'|  (written here; the package uses elliptic integrals).
+    Units: I in uA, lengths in um -> A in mT um = 1e-4 * I * integral."""
+    n = 20000
+    phi = (np.arange(n) + 0.5) * (2 * np.pi / n)
+    cx, cy, cz = LOOP["center"]
+    a = LOOP["radius"]
+    src = np.stack([cx + a * np.cos(phi), cy + a * np.sin(phi), np.full(n, cz)], axis=1)
+    dl = np.stack([-a * np.sin(phi), a * np.cos(phi), np.zeros(n)], axis=1) * (2 * np.pi / n)
+    out = []
+    for r in np.asarray(points, dtype=float):
+        d = np.linalg.norm(r[None, :] - src, axis=1)
+        out.append(1e-4 * LOOP["current"] * (dl / d[:, None]).sum(axis=0))
+    return np.array(out)
 
 
 # leaves used when an expression is handed to the solver: a vector potential, a scalar ramp
@@ -101,6 +120,13 @@ def make_leaf(tdgl, k, flavour="exact"):
 
         m = sys.modules["__main__"] if flavour == "main" else importlib.import_module(flavour.split(":", 1)[1])
         return {"P2": lambda: P(m.p2, a=2), "P3": lambda: P(m.p3, b=1), "PT": lambda: P(m.pt, time_dependent=True, c=1)}[k]()
+    if k in SHIPPED:
+        # the leaves the package ships (tdgl.sources), with non-default arguments
+        src = tdgl.sources
+        return {"RU": lambda: src.LinearRamp(tmin=0.5, tmax=2.5, initial=-0.5, final=1.5),
+                "RD": lambda: src.LinearRamp(tmin=0.5, tmax=2.5, initial=1.0, final=0.25),
+                "CF": lambda: src.ConstantField(2.0, field_units="mT", length_units="um"),
+                "CL": lambda: src.CurrentLoop(**LOOP)}[k]()
     if flavour == "twin":
         return {"P2": lambda: P(p2r, a=2, r0=np.array([1e-9, 0.0])), "P2b": lambda: P(p2r, a=2, r0=np.array([-1e-9, 0.0])),
                 "P3": lambda: P(make_p3(0.0), b=1), "P3b": lambda: P(make_p3(2.0), b=1),
@@ -151,7 +177,7 @@ def kinds(tree):
 # ---------------------------------------------------------------- abstraction
 
 
-def absval(v):
+def absval(v, tol=1e-9):
     """A concrete value -> units of 1/Q if it is an exact dyadic of the domain, else NOTEXACT."""
     if isinstance(v, (complex, np.complexfloating)):
         if v.imag != 0:
@@ -165,7 +191,7 @@ def absval(v):
         return NOTEXACT
     u = f * Q
     r = round(u)
-    if abs(u - r) <= 1e-9 * max(1.0, abs(u)) and abs(r) <= LIM:
+    if abs(u - r) <= tol * max(1.0, abs(u)) and abs(r) <= LIM:
         return int(r)
     return NOTEXACT
 
@@ -287,6 +313,39 @@ def deliver_events(tdgl, obj, tree):
     return out
 
 
+_LOOP_REF = {}
+
+
+def shipped_events(tdgl, obj, tree):
+    """An expression on shipped leaves, evaluated on the three points as arrays at every time: the (3, 3) array it
+    returns, abstracted row by row (for an expression linear in the current loop: its x, y columns in units of the
+    loop's own potential computed here by quadrature)."""
+    ks = kinds(tree)
+    td = bool(ks & {"RU", "RD"})
+    loop = "CL" in ks
+    out = []
+    for t_units in (TIMES if td else [0]):
+        x, y, z = (np.array([p[i] for p in POINTS], dtype=float) for i in range(3))
+        kw = {"t": t_units / Q} if td else {}
+        try:
+            with np.errstate(all="ignore"):
+                v = np.asarray(obj(x, y, z, **kw), dtype=float)
+            if v.shape != (3, 3):
+                obs = {"k": "o"}
+            elif loop:
+                if "ref" not in _LOOP_REF:
+                    _LOOP_REF["ref"] = loop_reference(POINTS)
+                ref = _LOOP_REF["ref"][:, :2]
+                obs = {"k": "v", "v": [absval(e, tol=1e-6) for e in (v[:, :2] / ref).ravel().tolist()]}
+            else:
+                obs = {"k": "v", "v": [absval(e) for e in v.ravel().tolist()]}
+        except Exception as e:
+            obs = {"k": "x", "cls": type(e).__name__}
+        out.append({"ev": "deliver", "f": "F3T" if td else "F3", "t": t_units, "a": "vec2" if loop else "vec", "b": "tmp",
+                    "obs": obs, "fill": filled(obj, tdgl)})
+    return out
+
+
 def clear_event(tdgl, obj, who):
     try:
         obj._clear_cache()
@@ -337,10 +396,14 @@ def exercise(tdgl, item, tmp=None):
         except Exception:
             continue
         ev.append(eq_event(obj, o2, other))
-    for form, t in item.get("calls", ORIG_CALLS):
-        ev.append(call_event(tdgl, obj, "orig", form, t))
-    if item.get("deliver", True):
-        ev += deliver_events(tdgl, obj, tree)
+    shipped = bool(kinds(tree) & SHIPPED)
+    if shipped:
+        ev += shipped_events(tdgl, obj, tree)
+    else:
+        for form, t in item.get("calls", ORIG_CALLS):
+            ev.append(call_event(tdgl, obj, "orig", form, t))
+        if item.get("deliver", True):
+            ev += deliver_events(tdgl, obj, tree)
     if item.get("clear", True):
         ev.append(clear_event(tdgl, obj, "orig"))
     for method in item.get("pickles", ["pickle", "cloudpickle"]):
@@ -366,7 +429,7 @@ def exercise(tdgl, item, tmp=None):
         except Exception as e:
             ceq = "exc:" + type(e).__name__
         ev.append({"ev": "unpickle", "ok": True, "cls": "", "td": ctd, "eq": ceq})
-        for form, t in item.get("copy_calls", COPY_CALLS):
+        for form, t in ([] if shipped else item.get("copy_calls", COPY_CALLS)):
             ev.append(call_event(tdgl, cp, "copy", form, t))
         if item.get("clear", True):
             ev.append(clear_event(tdgl, cp, "copy"))
@@ -503,7 +566,7 @@ def validate_parallel(ctx, traces, name, nbatch=4, timeout=900):
 def clause_of(event, violated):
     if violated:
         return ",".join(violated)
-    return {"build": "NestingTotal/TimeDepIffSomeOperand", "eq": "EqIsStructural", "call": "EvalIsPointwise", "deliver": "EvalIsPointwise (array argument delivered in re-used memory)",
+    return {"build": "NestingTotal/TimeDepIffSomeOperand", "eq": "EqIsStructural", "call": "EvalIsPointwise", "deliver": "EvalIsPointwise (array call)",
             "clear": "ClearCacheTotal", "pickle": "PickleRoundTrip", "unpickle": "PickleRoundTrip",
             "solve": "SolverAcceptsComposite"}.get(event, "no-matching-action")
 
